@@ -44,7 +44,8 @@ LEAN_KEYWORDS = {'open', 'end', 'at', 'from', 'fun', 'let', 'have', 'show', 'in'
 
 # sorts -> Lean types (inside a family whose header binds I S K)
 LEAN_TYPE = {'img': 'I', 'se': 'S', 'nat': 'Nat', 'int': 'Int', 'bool': 'Bool', 'K': 'K', 'vec': 'List K', 'mode': 'M',
-             'arr': 'A', 'natlist': 'List Nat', 'intlist': 'List Int'}
+             'arr': 'A', 'natlist': 'List Nat', 'intlist': 'List Int', 'fld': 'X → K', 'bfld': 'X → Bool',
+             'hist': 'H', 'pimg': 'G'}
 
 # guard helpers whose calls (as expression statements) are dropped: translator/guards.py extracts them
 GUARD_CALLS = {'_verify_is_integer_type', '_verify_is_floatingpoint_type', '_verify_is_bool', '_verify_is_nonnegative',
@@ -71,8 +72,9 @@ class Prim:
     `args` = sorts of the kept positional arguments, in the Python order; `kw` = keyword name -> position (keywords that may
     be used instead of a position); positional arguments beyond `args` must be plumbing names or string constants."""
 
-    def __init__(self, field, args, ret, kw=None, doc='', elementwise=False):
+    def __init__(self, field, args, ret, kw=None, doc='', elementwise=False, drop_kw=()):
         self.field, self.args, self.ret, self.kw, self.doc = field, list(args), ret, dict(kw or {}), doc
+        self.drop_kw = set(drop_kw)         # reviewed keywords without value-level meaning (dtype= of a conversion, copy=)
         self.elementwise = elementwise      # a numpy ufunc of one argument: on a vector it is `List.map`
 
 
@@ -103,7 +105,8 @@ class Family:
             if p.field in seen or p.field.startswith('='):
                 continue
             seen.add(p.field)
-            ty = ' → '.join([LEAN_TYPE[a] for a in p.args] + [LEAN_TYPE[p.ret]])
+            par = lambda t: f'({t})' if '→' in t else t
+            ty = ' → '.join([par(LEAN_TYPE[a]) for a in p.args] + [par(LEAN_TYPE[p.ret])])
             srcs = ', '.join(sorted(k for k, q in self.prims.items() if q.field == p.field))
             out.append(f'  /-- `{srcs}` -/')
             out.append(f'  {p.field} : {ty}')
@@ -207,7 +210,8 @@ class Tr:
         if isinstance(node, ast.BinOp):
             return self.binop(node, env, want)
         if isinstance(node, ast.Compare):
-            return self.compare(node, env), 'bool'
+            txt = self.compare(node, env)
+            return txt, ('bfld' if txt.startswith('(fun p =>') else 'bool')
         if isinstance(node, ast.BoolOp):
             parts = [self.cond(v, env) for v in node.values]
             op = ' && ' if isinstance(node.op, ast.And) else ' || '
@@ -274,8 +278,8 @@ class Tr:
             if op is ast.Div:
                 raise self.err(node, 'true division of two int literals')
             return f'({a} {sym} {b})', 'natlit'
-        rank = {'natlit': 0, 'bool': 0, 'nat': 1, 'int': 2, 'K': 3, 'vec': 4}
-        if sa not in rank or sb not in rank:
+        rank = {'natlit': 0, 'bool': 0, 'nat': 1, 'int': 2, 'K': 3, 'vec': 4, 'fld': 4}
+        if sa not in rank or sb not in rank or {sa, sb} == {'vec', 'fld'}:
             raise self.err(node, f'arithmetic on sorts {sa},{sb}')
         if op is ast.Div and rank[sa] < 3 and rank[sb] < 3:
             tgt = 'K'                                  # Python 3 true division of ints gives a float
@@ -285,6 +289,10 @@ class Tr:
             tgt = 'nat'
         if tgt == 'nat' and op is ast.Sub:
             tgt = 'int'                                # Python ints do not truncate at 0
+        if tgt == 'fld':                               # arrays seen pointwise: numpy's elementwise arithmetic
+            a = f'({a} p)' if sa == 'fld' else self.coerce(a, sa, 'K', node)
+            b = f'({b} p)' if sb == 'fld' else self.coerce(b, sb, 'K', node)
+            return f'(fun p => {a} {sym} {b})', 'fld'
         if tgt == 'vec':
             if sa == 'vec' and sb == 'vec':
                 return f'(List.zipWith (fun a b => a {sym} b) {a} {b})', 'vec'
@@ -310,10 +318,14 @@ class Tr:
             raise self.err(node, 'comparison outside the subset')
         a, sa = self._E(l, env)
         b, sb = self._E(r, env)
-        rank = {'natlit': 0, 'nat': 1, 'int': 2, 'K': 3}
+        rank = {'natlit': 0, 'nat': 1, 'int': 2, 'K': 3, 'fld': 4}
         if sa not in rank or sb not in rank:
             raise self.err(node, f'comparison of sorts {sa},{sb}')
         tgt = sa if rank[sa] >= rank[sb] else sb
+        if tgt == 'fld':
+            a = f'({a} p)' if sa == 'fld' else self.coerce(a, sa, 'K', node)
+            b = f'({b} p)' if sb == 'fld' else self.coerce(b, sb, 'K', node)
+            return f'(fun p => decide (({a} : K) {self.CMP[op]} {b}))'
         if tgt == 'natlit':
             tgt = 'nat'
         a = self.coerce(a, sa, tgt, node) if sa != 'natlit' or tgt == 'K' else a
@@ -352,6 +364,15 @@ class Tr:
                 and dotted(node.keywords[0].value) == 'float' and 'K' in self.fam.tparams:
             n, _ = self.E(node.args[0], env, 'nat')
             return f'(List.map ofNat (List.range {n}))', 'vec'
+        # np.choose(c, (a0, a1)) on a boolean selector, pointwise: False -> a0, True -> a1
+        if d == 'np.choose' and len(node.args) == 2 and not node.keywords and isinstance(node.args[1], ast.Tuple) \
+                and len(node.args[1].elts) == 2:
+            c, sc = self._E(node.args[0], env)
+            a0, s0 = self._E(node.args[1].elts[0], env)
+            a1, s1 = self._E(node.args[1].elts[1], env)
+            if sc == 'bfld' and s0 == s1 and s0 in ('fld', 'bfld'):
+                return f'(fun p => if {c} p then {a1} p else {a0} p)', s0
+            raise self.err(node, f'np.choose on sorts {sc},({s0},{s1})')
         if d == 'np.sum' and len(node.args) == 1 and not node.keywords and 'K' in self.fam.tparams:
             a, s = self._E(node.args[0], env)
             if s == 'vec':
@@ -390,7 +411,7 @@ class Tr:
             else:
                 raise self.err(node, f'extra positional argument {i} of {d}')
         for k in node.keywords:
-            if k.arg in PLUMBING:
+            if k.arg in PLUMBING or k.arg in p.drop_kw:
                 continue
             if k.arg in p.kw:
                 if slots[p.kw[k.arg]] is not None:
@@ -682,6 +703,22 @@ CONV = Family(
                            kw={'axis': 2, 'mode': 3, 'cval': 4}),
     }, extra_params=EMBED)
 
+THRESH = Family(
+    'thresholding', ['K', 'X', 'S'], '[Add K] [Sub K] [Mul K] [Div K] [LT K] [DecidableLT K]', 'ThreshPrims',
+    {
+        'rank_filter': Prim('rank_filter', ['fld', 'se', 'int'], 'fld'),
+        '.sum()': Prim('se_sum', ['se'], 'int', doc='number of non-zero entries of a 0/1 structuring element'),
+    }, extra_params=EMBED)
+
+HISTO = Family(
+    'histogram thresholds', ['H', 'G'], '', 'HistPrims',
+    {
+        'fullhistogram': Prim('fullhistogram', ['pimg'], 'hist'),
+        'np.asanyarray': Prim('asanyarray', ['hist'], 'hist', drop_kw={'dtype'}),
+        'setitem': Prim('setitem', ['hist', 'nat', 'nat'], 'hist', doc='`h[i] = v`'),
+        '_histogram.otsu': Prim('otsu', ['hist'], 'nat'),
+    })
+
 TARGETS = [
     Target('morph.py', 'open', [('f', 'img'), ('Bc', 'se')], 'img', MORPH),
     Target('morph.py', 'close', [('f', 'img'), ('Bc', 'se')], 'img', MORPH),
@@ -692,8 +729,11 @@ TARGETS = [
     # order: a Python int; the reviewed signature takes it as a natural (a negative order ends in the final `raise` like any order > 3)
     Target('convolve.py', 'gaussian_filter1d',
            [('array', 'arr'), ('sigma', 'K'), ('axis', 'int'), ('order', 'nat'), ('mode', 'mode'), ('cval', 'K')], 'arr', CONV),
+    # arrays are seen pointwise (`fld` = position -> value): the numpy operators and np.choose act element by element
+    Target('thresholding.py', 'gbernsen', [('f', 'fld'), ('se', 'se'), ('contrast_threshold', 'K'), ('gthresh', 'K')], 'bfld', THRESH),
+    Target('thresholding.py', 'otsu', [('img', 'pimg'), ('ignore_zeros', 'bool')], 'nat', HISTO),
 ]
-FAMILIES = [MORPH, CONV]
+FAMILIES = [MORPH, CONV, THRESH, HISTO]
 
 
 def _find_function(tree, name):
